@@ -20,6 +20,10 @@ func checkC15(c *Check) {
 	p := c.P
 	// NOTIFICATION
 	c.notificationEncode("C15.1 notification-encode")
+	c.codecContracts("C15.1 codec-effects")
+	c.tlvExactFit("C15.1 optional-parameters exact-fit", "decodeOptionalParams", 0, "capabilityOptionalParam.decode", c.P.MustConst("capabilityOptionalParamType"))
+	c.tlvExactFit("C15.1 capabilities exact-fit", "capabilityOptionalParam.decode", 1, "", -1)
+	c.specConstants("C15.1 spec-constants", "openMessageType", "updateMessageType", "notificationMessageType", "keepAliveMessageType", "headerLength", "maxMessageLength", "NOTIF_CODE_OPEN_MESSAGE_ERR", "NOTIF_SUBCODE_UNSUPPORTED_VERSION_NUM", "NOTIF_SUBCODE_BAD_PEER_AS", "NOTIF_SUBCODE_BAD_BGP_ID", "NOTIF_SUBCODE_UNSUPPORTED_OPTIONAL_PARAM", "NOTIF_SUBCODE_UNACCEPTABLE_HOLD_TIME", "NOTIF_SUBCODE_UNSUPPORTED_CAPABILITY", "asTrans", "capabilityOptionalParamType", "CAP_FOUR_OCTET_AS", "CAP_MP_EXTENSIONS", "CAP_FOUR_OCTET_AS", "CAP_ADD_PATH", "AFI_IPV4", "AFI_IPV6", "SAFI_UNICAST")
 	c.notificationDecode("C15.1 notification-decode")
 	// OPEN
 	checkC02Decode(c)
